@@ -1,17 +1,19 @@
 SPECIFICATION MCSpec
 CONSTANTS
-  Author = {"a1", "a2"}
+  Author = {"a1"}
   Mallory = {"mx"}
   Log = {"l1"}
   MaxSeq = 2
   PrunePositions <- LastOfFirstAuthor
-  MaxDeliver = 3
+  MaxDeliver = 4
   MaxInFlight = 1
-  ForgeBudget = 1
-  Classes <- AllClasses
+  ForgeBudget = 4
+  Classes <- OnlyResigned
   Defect_PruneAfterFailedIngest = FALSE
   Defect_PruneFlagSkipsLatestCheck = FALSE
   Defect_LogIdFromTopicUnchecked = FALSE
 INVARIANTS
   Export
+  C03_UniqueSeq
+  C03_Linked
 CHECK_DEADLOCK FALSE
